@@ -151,12 +151,15 @@ class VSQS(Ansatz):
     def update_var_params(self, var_params):
         """Update the variational parameters in the circuit without rebuilding."""
         self.set_var_params(var_params)
+        # The variational gates of a user-supplied reference circuit come before the VSQS ones
+        n_ref = len(self.circuit._variational_gates) - self.n_var_gates * (self.intervals - 1)
         for i in range(self.intervals-1):
-            self._update_gate_params_for_qu_op(self.h_init_list, self.n_var_gates * i, var_params[self.stride*i], self.n_h_init)
-            self._update_gate_params_for_qu_op(self.h_final_list, self.n_var_gates * i + self.n_h_init * self.trotter_order,
+            n_start = n_ref + self.n_var_gates * i
+            self._update_gate_params_for_qu_op(self.h_init_list, n_start, var_params[self.stride*i], self.n_h_init)
+            self._update_gate_params_for_qu_op(self.h_final_list, n_start + self.n_h_init * self.trotter_order,
                                                var_params[self.stride*i+1], self.n_h_final)
             if self.h_nav is not None:
-                self._update_gate_params_for_qu_op(self.h_nav_list, self.n_var_gates * i + (self.n_h_init + self.n_h_final) * self.trotter_order,
+                self._update_gate_params_for_qu_op(self.h_nav_list, n_start + (self.n_h_init + self.n_h_final) * self.trotter_order,
                                                    var_params[self.stride*i+2], self.n_h_nav)
 
     def _update_gate_params_for_qu_op(self, qu_op_list, n_var_start, var_param, num_terms):
